@@ -135,6 +135,7 @@ var (
 	fTrace    = flag.Bool("trace", false, "with -replay: print the step log")
 	fFree     = flag.Int("free", 0, "free-running mode (no scheduler): run every quick scenario this many times; used by the supplementary -race pass")
 	fFreeOut  = flag.String("free-out", "", "free-running mode: summary file")
+	fSummary  = flag.String("summary", "", "companion mode: explore as usual but write a summary file (folded into the evidence of a plain-flavour check) instead of the evidence file")
 )
 
 func phases(s Scenario, tier string) []Phase {
@@ -180,11 +181,11 @@ func runOne(s Scenario, prefix []int, expect []vrt.Choice) (*Ctx, []vrt.Choice, 
 		defer bleve.Config.SetAnalysisQueueSize(0)
 		s.Body(c)
 	})
-	os.RemoveAll(c.Dir)
 	classify(c, v)
 	if c.fail == "" && s.After != nil {
 		s.After(c)
 	}
+	os.RemoveAll(c.Dir)
 	return c, tr, v
 }
 
@@ -323,11 +324,11 @@ func worker(prop string, scenarios []Scenario) {
 		s.Body(cur)
 	}, func(prefix []int, tr []vrt.Choice, v vrt.Verdict) bool {
 		c := cur
-		os.RemoveAll(c.Dir)
 		classify(c, v)
 		if c.fail == "" && s.After != nil {
 			s.After(c)
 		}
+		os.RemoveAll(c.Dir)
 		execs++
 		steps += int64(v.Steps)
 		key := strings.Join(c.obs, "|")
@@ -610,6 +611,13 @@ func parent(prop, level string, scenarios []Scenario, describe func(r *mc.Run)) 
 		}
 	}
 	jobs.Wait()
+	if *fSummary != "" {
+		if err := r.ExportSummary(*fSummary); err != nil {
+			fmt.Fprintln(os.Stderr, "summary:", err)
+			os.Exit(3)
+		}
+		os.Exit(0)
+	}
 	r.Finish()
 }
 
